@@ -44,6 +44,20 @@ FIXED_FRAGMENTS = [
 ]
 
 
+# hand-written hosts whose marked rows (1-based, with the indentation depth of the insertion point) depend on state that a
+# statement directly before them could leave behind: every fixed fragment is placed before every marked row
+FIXED_HOSTS = [
+    ("def pick(flag)\n  if flag\n    [1, 2]\n  else\n    (1..3)\n  end\nend\nitems = pick(true)\ndbtp items\ntotal = 0\nitems.each { |item| dbtp item }\ndbtp total\n",
+     [(11, 0), (9, 0)]),
+    ("u = true ? [1] : {a: 1}\nu.each do |pa, pb|\n  dbtp pa\nend\nw = [1, \"s\"]\nw.each_with_index do |e, i|\n  dbtp e\n  dbtp i\nend\n", [(2, 0), (6, 0), (7, 1)]),
+    ("def g(a, b = 1, *r, k: 2)\n  dbtp a\n  return a if a.nil?\n  dbtp r\n  [a, b]\nend\ndbtp g(1)\ndbtp g(\"s\", 2, 3, k: 4)\n", [(2, 1), (3, 1), (5, 1), (7, 0)]),
+    ("class Kq\n  attr_reader :v\n  def initialize(v = 1)\n    @v = v\n  end\n  private\n  def hid\n    @v\n  end\nend\nq = Kq.new\ndbtp q.v\nq.hid\n", [(4, 2), (8, 2), (11, 0), (13, 0)]),
+    ("x = true ? 1 : nil\ncase x\nin Integer => n\n  dbtp n\nin nil\n  dbtp x\nend\ny = x.nil? ? 0 : x\ndbtp y\nif x.is_a?(Integer) && y > 0\n  dbtp x\nend\ndbtp x\n",
+     [(2, 0), (4, 1), (8, 0), (10, 0), (11, 1)]),
+    ("h = {a: 1, b: \"s\"}\nh.each do |k, v|\n  dbtp k\n  dbtp v\nend\nz = h[:a]\ndbtp z\nm = h.merge({c: 1.5}) { |key, o, n| o }\ndbtp m\n", [(2, 0), (3, 1), (6, 0), (8, 0)]),
+]
+
+
 def tokens_of(text):
     return set(re.findall(r"[A-Za-z_]\w*", text))
 
@@ -54,7 +68,7 @@ class Check(Prop):
             "of def/class/if/else/while/blocks) and golden corpus programs (conservative boundaries). Fragments: grammar-generated code "
             "whose identifiers all carry the prefix zq (disjoint from every host identifier), without def/class/module, containing "
             "conditionals with nil?/is_a? narrowing, blocks, array literals and builtin calls on union receivers, plus a fixed list of "
-            "hand-written fragments; placement at any boundary that is not the end of its body, or appended as a whole independent "
+            "hand-written fragments (each of them is also placed before every marked row of six hand-written hosts: union-receiver blocks, guard clauses, case/in, visibility, hash blocks); placement at any boundary that is not the end of its body, or appended as a whole independent "
             "program at the end. Oracle: `ti -i` (plain sampled) records of host+fragment, minus records on the fragment's rows, with rows "
             "after the fragment shifted back, equal the host's records (multisets). Non-trivial = the host has a record after the insertion "
             "point and the fragment contains a conditional, block or union call; distinct by SHA-1.")
@@ -99,6 +113,10 @@ class Check(Prop):
             yield {"host": p.text, "row": r, "frag": frag, "indent": d, "origin": "corpus:" + p.name}
             frag2 = FIXED_FRAGMENTS[(j + 5) % len(FIXED_FRAGMENTS)]
             yield {"host": p.text, "row": p.text.count("\n") + 1, "frag": frag2, "indent": 0, "origin": "corpus-append:" + p.name}
+        for host, marks in FIXED_HOSTS:
+            for row, depth in marks:
+                for frag in FIXED_FRAGMENTS:
+                    yield {"host": host, "row": row, "frag": frag, "indent": depth, "origin": "fixed-host", "ctx": "fixed"}
 
     def strategy(self):
         cb = self._corpus_bounds()
